@@ -190,6 +190,10 @@ class Model:
                 outs = self.summary(fval[1], [TOP] + list(cargs), ts[4])
                 return [(rv, compose(ts, dl)) for rv, dl in outs]
             if fval[0] == "fn":
+                # tuple-variant constructors used as functions: `.map(Some)`, `.map_err(Err)`, `.and_then(Ok)`
+                if fval[1] in ("core::option::Option::Some", "core::result::Result::Ok", "core::result::Result::Err") or \
+                        fval[1].split("::<")[0] in ("core::option::Option", "core::result::Result") and last(fval[1]) in ("Some", "Ok", "Err"):
+                    return [(variant(last(fval[1]), cargs[0] if cargs else TOP), ts)]
                 p = fval[2] if fval[2] in self.F.fns else (fval[1] if fval[1] in self.F.fns and self.F.fns[fval[1]].get("trait_default") is None else None)
                 if p:
                     outs = self.summary(p, list(cargs), ts[4])
